@@ -144,7 +144,7 @@ func (ct *Ciphertext[E, S]) UnmarshalCBOR(data []byte) error {
 	if dto.V == nil {
 		return encryption.ErrIsNil.WithMessage("ciphertext component V is nil")
 	}
-	ctt, err := NewCiphertext(dto.V.Components()[0], dto.V.Components()[1])
+	ctt, err := NewCiphertextFromGroupElement(dto.V)
 	if err != nil {
 		return errs.Wrap(err).WithMessage("could not create ciphertext from unmarshaled components")
 	}
